@@ -162,11 +162,25 @@ package native
 //@ opt callbacks pure
 //@ opt only readonly
 
+// (C07) admission looks every signer of the transaction up in the blocked list, not the sender
+// only (the lookup itself is a read of the sorted cache; what it answers is taken as a function of
+// cache and account). The cache is the read-only one: nothing is stored through it.
+//@ prop C04,C07
+//@ import util github.com/nspcc-dev/neo-go/pkg/util
+//@ spec blockedAcc(c *PolicyCache, h util.Uint160) bool
+//@ func (*Policy).isBlockedInternal
+//@ assumed
+//@ pure
+//@ ensures result1 == blockedAcc(roCache, arg2)   // arg2: the account hash (the parameter name is shadowed by an imported package here)
 //@ func (*Policy).CheckPolicy
 //@ may-panic
 //@ opt frame off
 //@ opt callbacks pure
-//@ opt only readonly
+//@ requires tx != nil
+//@ call isBlockedInternal requires[signer] arg2 == signer.Account && arg1 == cache
+//@ ensures[all] result == nil ==> ncalls(isBlockedInternal) == len(tx.Signers)
+//@ loop 0 invariant[count] ncalls(isBlockedInternal) == $i
+//@ prop C04
 
 //@ func (*Policy).CleanWhitelist
 //@ may-panic
